@@ -1243,8 +1243,14 @@ func lateRegister(c *RunCtx, g *Gen, name string) bool {
 		key = string(b)
 	case "uint32":
 		key = uint32(0x7F000000 + g.t.Intn(1<<20))
+		if g.t.Intn(2) == 0 {
+			key = uint32(1 + g.t.Intn(255)) // small keys: dense dispatch arrays
+		}
 	case "uint16":
 		key = uint16(0x7F00 + g.t.Intn(255))
+		if g.t.Intn(2) == 0 {
+			key = uint16(5 + g.t.Intn(250))
+		}
 	default:
 		return false
 	}
@@ -1262,4 +1268,31 @@ func lateRegister(c *RunCtx, g *Gen, name string) bool {
 	c.Fire("cfg.late-registration")
 	c.Logf("CONFIGURATION: the application registered %v -> %s in table %s at run time", key, base.Type, ts.Table)
 	return true
+}
+
+// nilNested sets one nested pointer part (schema kind "obj" held by pointer) reachable from a
+// value to nil and reports whether it found one.  Such values are outside the encoder's
+// guarantee (C17 says so): Encode may fail on them in any way - which is what makes them
+// useful as the failing operation of a history.
+func nilNested(rv reflect.Value, ts *TypeSchema) bool {
+	for i := range ts.Fields {
+		f := &ts.Fields[i]
+		fv := fieldOf(rv, f.Name)
+		switch f.Kind {
+		case "obj":
+			if fv.Kind() == reflect.Ptr && !fv.IsNil() {
+				fv.Set(reflect.Zero(fv.Type()))
+				return true
+			}
+		case "body":
+			if !fv.IsNil() {
+				if dn := typeNameOfType(fv.Elem().Type()); schema.Types[dn] != nil {
+					if nilNested(fv.Elem().Elem(), schemaOf(dn)) {
+						return true
+					}
+				}
+			}
+		}
+	}
+	return false
 }
